@@ -114,6 +114,15 @@ def judge(name, d):
         if t - rel > REL:
             return ("queue-close-does-not-wake-all", f"a blocked consumer returned {t - rel:.1f} ms after put(); close()", False)
         return None
+    if parts[0] == "close_race_put":
+        if ret == "none":
+            return ("queue-close-does-not-wake-all", "a producer blocked on a full queue stayed blocked after get(); close()", True)
+        if d.get("bad", "0") != "0":
+            return ("queue-put-after-close", f"get(); close() with a producer blocked on a full queue: in {d.get('bad')} of {d.get('trials')} trials the queue "
+                    "reported is_closed() while still holding the producer's item (the put was accepted after close())", True)
+        if d.get("lost", "0") != "0":
+            return ("queue-drain-lost-items", f"an item whose put() returned true could not be retrieved in {d.get('lost')} trials", True)
+        return None
     if parts[0] == "drain":
         k = int(parts[1][4:])
         exp_vals = ",".join(str(100 + i) for i in range(k)) or "-"
